@@ -14,13 +14,13 @@ ID = 'C13'
 PROFILES = ['dev']
 # units a valid program is built from (each is a complete, closed piece of program text; '' is a blank line)
 UNITS = ['say 1', 'X is 5', 'If X\nsay 1\n', 'While X\nBuild X up\n', 'If X\nsay 1\nElse\nsay 2\n', '(a comment\nover two lines)', 'say "two\nlines"', '', 'F takes Y\ngive back Y\n',
-         'Put "a\nb" into X']
+         'Put "a\nb" into X', 'say "line break last\n"', '(comment closed on its own line\n)', '(\n\n)']
 # open contexts: the fault line goes inside a block that is still open (text before, text after)
 OPEN = [('If X\nsay 1', 'say 2\n'), ('While X\nBuild X up', '\n'), ('F takes Y\nsay Y', 'give back Y\n'), ('If X\nsay 1\nElse\nsay 2', '\n'), ('If X\nWhile Y\nsay 1', '\n\n')]
 FAULTS = {
  'missing-operand': ['Put into X', 'Put 1 into', 'say', 'shout', 'Let X be', 'Let be 1', 'Listen to', 'Build up', 'Knock down', 'Turn up', 'Turn X', 'Rock', 'Roll', 'Cut', 'Join', 'Cast', 'give back', 'If', 'While', 'Until',
                      'say 1 plus', 'say 1 times', 'say not', 'say X at', 'say 1 is', 'say X is greater than', 'say X taking', 'X taking', 'Let X at be 1', 'Cut X into', 'Cut X with', 'Rock X with', 'Roll X into', 'Put 1 plus into X',
-                     'say 1 and', 'X takes', 'X takes Y and'],
+                     'say 1 and', 'X takes', 'X takes Y and', 'say 1 plus 2, and', 'Let X be 1, 2, and', 'say X with 1, my', 'say X times 2, -', 'Rock X with 1, and', 'say X taking 1, and', 'say X taking 1 &'],
  'missing-keyword': ['Put 1 X', 'Let X 1', 'Build X', 'Knock X', 'Listen X', 'Take it to the', 'Take it', 'say X is as big', 'say X is bigger 1', 'Cut X into', 'Rock X 1'],
  'two-statements': ['say 1 say 2', 'Put 1 into X say 2', 'Build X up say 1', 'say 1 Put 2 into X', 'Listen to X say X', 'Break say 1', 'Continue say 1', 'say 1 Break', 'Roll X say 1', 'give back 1 say 2', 'say 1 Let X be 2'],
  'invalid-identifier': ['a1 is 5', 'x_y is 5', '_ is 1', 'say a1', 'Put 1 into a1', 'Let x2 be 1', 'x1', 'Build a1 up'],
@@ -121,7 +121,7 @@ def jobs(ctx, tier):
         noisy = tier != 'quick' or k == 0 or c in OPEN          # quick: symbolic noise for the empty context and the open-block contexts
         js.append(Job(f'context/{k}' + ('/noise' if noisy else ''), h_fault, (mir, [c], faults, noisy), witness=['judged', 'rejected'], str_mode='bounded', fuel=3_000_000, weight=90 if noisy else 30))
     if tier == 'quick':
-        sel = [f for i, f in enumerate(faults) if i % 6 == 0]
+        sel = [f for i, f in enumerate(faults) if i % 11 == 0]
         for k in range(0, len(two), 6):
             js.append(Job(f'context2/{k}', h_fault, (mir, two[k:k + 6], sel, False), witness=['judged', 'rejected'], str_mode='bounded', fuel=3_000_000, weight=30))
     return js
